@@ -11,6 +11,8 @@ warnings.filterwarnings("ignore")
 def main():
     req = json.loads(sys.stdin.read())
     import desolver as de
+    from monitor import watchdog
+    watchdog.install(de)
     from desolver import integrators as I
     import scipy.integrate
     failures, cases = {}, 0
